@@ -210,7 +210,7 @@ def index_body(c):
 
 
 # ---- mixing programs ------------------------------------------------------------------------------------------------
-PHI = ["lin", "sin", "sq"]
+PHI = ["lin", "sin", "sq", "shared_pair"]
 
 
 def mixing_body(c):
@@ -236,9 +236,9 @@ def mixing_body(c):
                 idx = None
         if idx is None:
             idx = Ellipsis
-        terms.append(("sparse", idx, PHI[c.int(0, 2)], c.choice([1.0, -0.5, 2.0])))
+        terms.append(("sparse", idx, PHI[c.int(0, 3)], c.choice([1.0, -0.5, 2.0])))
     for _ in range(n_dense):
-        terms.append(("dense", None, c.choice(["lin", "sin", "sq", "pass", "pass_reshape", "pass_sub"]), c.choice([1.0, -0.5, 2.0])))
+        terms.append(("dense", None, c.choice(["lin", "sin", "sq", "pass", "pass_reshape", "pass_sub", "shared_add"]), c.choice([1.0, -0.5, 2.0])))
     order = c.perm(len(terms))
     terms = [terms[i] for i in order]
     # association tree: list of merge positions
@@ -252,6 +252,14 @@ def mixing_body(c):
     def f(xx, ns):
         parts = []
         for k, (kind, idx, fn, w) in enumerate(terms):
+            if fn == "shared_pair":
+                # a and b both feed s = a + b, so ONE cotangent object reaches both; a is additionally indexed inside a product
+                # with another use of b: the indexed contribution reaches a while b's copy of that object is still pending
+                a_, b_ = xx * 2.0, xx * 3.0
+                sel = a_[idx]
+                val = ns.sum(b_) * ns.sum(sel * weights(onp.shape(sel), k)) + ns.sum((a_ + b_) * weights(onp.shape(xx), k + 40))
+                parts.append(w * val)
+                continue
             t = xx[idx] if kind == "sparse" else xx
             if fn == "lin":
                 val = ns.sum(t * weights(onp.shape(t), k))
@@ -259,6 +267,11 @@ def mixing_body(c):
                 val = ns.sum(ns.sin(t) * weights(onp.shape(t), k))
             elif fn == "sq":
                 val = ns.sum(t * t * weights(onp.shape(t), k))
+            elif fn == "shared_add":
+                # add hands ONE cotangent object to both parents: to xx itself (a dense, not-owned contribution) and to the
+                # product node, which is processed later - an indexed contribution arriving at xx in between must not write into it
+                z = t * 0.5  # z has a second consumer, so its cotangent stays pending while other contributions reach xx
+                val = ns.sum((t + z) * weights(onp.shape(t), k)) + ns.sum(ns.sin(z) * weights(onp.shape(t), k + 40))
             elif fn == "pass":
                 val = ns.sum(t + 0.0)  # the rule of add returns its incoming cotangent unchanged
             elif fn == "pass_reshape":
@@ -276,6 +289,14 @@ def mixing_body(c):
         size = x.size
         total = onp.zeros(shape)
         for k, (kind, idx, fn, w) in enumerate(terms):
+            if fn == "shared_pair":
+                sel = (2.0 * x)[idx]
+                wsel = weights(onp.shape(sel), k)
+                A, B = float(onp.sum(sel * wsel)), float(onp.sum(3.0 * x))
+                pos = onp.arange(size).reshape(shape)[idx]
+                scat = onp.bincount(onp.asarray(pos).ravel(), weights=onp.asarray(wsel, dtype=float).ravel(), minlength=size).reshape(shape) if size else onp.zeros(shape)
+                total = total + w * (3.0 * A * onp.ones(shape) + B * 2.0 * scat + 5.0 * weights(shape, k + 40))
+                continue
             t = x[idx] if kind == "sparse" else x
             wk = weights(onp.shape(t), k)
             if fn == "lin":
@@ -284,6 +305,8 @@ def mixing_body(c):
                 d = onp.cos(t) * wk
             elif fn == "sq":
                 d = 2 * t * wk
+            elif fn == "shared_add":
+                d = 1.5 * wk + 0.5 * onp.cos(0.5 * t) * weights(onp.shape(t), k + 40)
             elif fn in ("pass", "pass_reshape"):
                 d = onp.ones(onp.shape(t))
             else:
@@ -301,7 +324,7 @@ def mixing_body(c):
     except Exception as e:
         return Outcome("numpy_rejects", detail=str(e)[:100], sample=sample)
     bucket = lambda k: f"C11|mixing|{k}"
-    seq = "".join("s" if t[0] == "sparse" else ("p" if t[2].startswith("pass") else "d") for t in terms)
+    seq = "".join("s" if t[0] == "sparse" else ("p" if t[2].startswith("pass") or t[2] == "shared_add" else "d") for t in terms)
     c.features.update(seq=seq, n_sparse=n_sparse, n_dense=n_dense, rank=len(shape))
     labels = [f"n_sparse={n_sparse}", f"n_dense={n_dense}", "first=" + seq[0], f"rank={len(shape)}"]
     try:
